@@ -37,7 +37,8 @@ def imem_opcodes():
     os.environ["FORCE_BINJA_MOCK"] = "1"
     if common.REPO not in sys.path:
         sys.path.insert(0, common.REPO)
-    from binja_test_mocks import binja_api  # noqa: F401
+    from symx import env
+    env.setup()       # before any import of the repo, so that the evaluator's source transform is in place
     from sc62015.pysc62015.instr import decode, OPCODES
     from binja_test_mocks.tokens import asm_str
     out = set()
@@ -68,21 +69,31 @@ def units_for(prop, tier):
             else:
                 units.append(dict(pre=pre, opcode=op, wall_s=kw.get("wall_s", 500)))
 
+    allpres = sorted(cpu.PRE_BYTES)
     if prop == "C04":
         if tier == "quick":
-            add(None, [1, 2])
-        else:
             for pre in (None, 0x32, 0x25, 0x30):
-                add(pre, [1, 2, 3], wall_s=3000, bcd_max=2 if pre is None else 1)
+                add(pre, [1, 2, 3], bcd_max=2)
+        else:
+            for pre in [None] + allpres:
+                add(pre, [1, 2, 3, 4], wall_s=3000, bcd_max=3)
     elif prop == "C03":
         im = imem_opcodes()
         if tier == "quick":
-            for pre in QUICK_PRES_C03:
-                add(pre, [1], only=im)
+            for pre in allpres:
+                add(pre, [1, 2], only=im, bcd_max=2)
         else:
-            for pre in cpu.PRE_BYTES:
-                add(pre, [1, 2], wall_s=3000)
-            add(None, [3], wall_s=3000)
+            for pre in allpres:
+                add(pre, [1, 2, 3], wall_s=3000, bcd_max=3)
+            add(None, [1, 2, 3, 4], wall_s=3000, bcd_max=3)
+    # counted instructions for every I >= 1: loop rule at IL level (contracts/blockind.py)
+    if prop == "C04":
+        ipres = [None, 0x32, 0x25, 0x30] if tier == "quick" else [None] + allpres
+    else:
+        ipres = allpres if tier == "quick" else [None] + allpres
+    for pre in ipres:
+        for op in sorted(cpu.BLOCK_OPS):
+            units.append(dict(pre=pre, opcode=op, induction=True, wall_s=900))
     heavy = {0xD4: 0, 0xC4: 1, 0xD5: 2, 0xC5: 3, 0x56: 4, 0x5E: 4, 0xF3: 5, 0xFB: 5, 0xEB: 6, 0xE3: 6, 0x54: 7, 0x5C: 7}
     units.sort(key=lambda u: (heavy.get(u["opcode"], 50) - 10 * (u.get("block_n") or 0), u["opcode"]))
     return units
@@ -131,7 +142,7 @@ def run(prop, tier):
         units = units_for(prop, tier)
         for u in units:
             u["known"] = [e for e in known if "witness" in e.get("match", {}) and common.unit_matches(e, u)]
-        reps = common.run_units("contracts.cpu:unit_entry", units, budget=max(u["wall_s"] for u in units))
+        reps = common.run_units("contracts.blockind:unit_dispatch", units, budget=max(u["wall_s"] for u in units))
         # C03 looks at locations (memory image, pointer registers, read footprint); C04 at everything.
         v.absorb(reps, known)
         v.bounded = _bounded_note(units)
